@@ -30,6 +30,9 @@ pub struct SourceSpec {
 	/// tiles by (z, x, y), already compressed with `compression`
 	pub tiles: HashMap<(u8, u32, u32), Vec<u8>>,
 	pub compression: TileCompression,
+	/// how often the stream future of this source returns `Pending` (`tokio::task::yield_now`) before it
+	/// delivers its tiles – lets an earlier source finish later than a later one
+	pub yields: u32,
 }
 
 #[derive(Debug)]
@@ -56,6 +59,19 @@ impl TilesReaderTrait for MemSource {
 	}
 	async fn get_tile_data(&self, coord: &TileCoord3) -> Result<Option<Blob>> {
 		Ok(self.spec.tiles.get(&(coord.z, coord.x, coord.y)).map(|v| Blob::from(v.clone())))
+	}
+	async fn get_bbox_tile_stream(&self, bbox: TileBBox) -> TileStream {
+		// suspend a seeded number of times (like a source doing async IO), then deliver the tiles of the box
+		for _ in 0..self.spec.yields {
+			tokio::task::yield_now().await;
+		}
+		let mut v = vec![];
+		for coord in bbox.iter_coords() {
+			if let Some(b) = self.spec.tiles.get(&(coord.z, coord.x, coord.y)) {
+				v.push((coord, Blob::from(b.clone())));
+			}
+		}
+		TileStream::from_vec(v)
 	}
 }
 
@@ -479,7 +495,7 @@ impl Runner {
 			}
 			_ => c.tile.clone(),
 		};
-		let sources: Sources = Arc::new(Mutex::new(HashMap::from([("src".to_string(), SourceSpec { tiles: HashMap::from([((3u8, 1u32, 2u32), stored)]), compression })])));
+		let sources: Sources = Arc::new(Mutex::new(HashMap::from([("src".to_string(), SourceSpec { tiles: HashMap::from([((3u8, 1u32, 2u32), stored)]), compression, yields: (self.n % 3) as u32 })])));
 		let factory = make_factory(&self.dir, sources);
 		let s = |b: &[u8]| String::from_utf8(b.to_vec()).unwrap();
 		let vpl = format!(
@@ -733,7 +749,7 @@ fn boundary_cases() -> (Vec<Vec<u8>>, Vec<UpdCase>) {
 }
 
 fn gen_update_case(rng: &mut Rng, messy: bool) -> UpdCase {
-	let o = gen_opts(messy, false);
+	let o = gen_opts(messy, rng.chance(1, 3));
 	let unique = rng.chance(9, 10);
 	let tile = gen_tile(rng, &o, unique);
 	let style = gen_style(rng);
